@@ -31,6 +31,14 @@ structure Params where
   default  : Nat
 deriving Repr, DecidableEq
 
+/-- The parameters of the code in the tree: floor 32 in `newReplayWindow`, no ceiling there, the
+ceiling 64 in `span()`.  They are NOT read from text-matching facts: `Gotlcp.Tie.Replay` proves, for
+all inputs, that the functions TRANSLATED from dtlcp/replay.go on every run compute exactly the model
+instantiated with these values, so a semantic change of replay.go breaks that proof while a
+renaming or an equivalent re-arrangement does not.  `default` is the constant
+`defaultReplayWindowSize` (evaluated by the extractor). -/
+def treeParams (default : Nat) : Params := { floor := 32, newCeil := none, spanCeil := some 64, default := default }
+
 /-- `replayWindow` -/
 structure Window where
   right  : Nat
